@@ -375,6 +375,36 @@ Section Proofs.
       + intros s3. rewrite Hn, String.eqb_refl. assert (Hty : (String.eqb (cr_type r) "one_to_one" || String.eqb (cr_type r) "one_to_many") = true) by (destruct Ht as [-> | ->]; reflexivity).
         rewrite Hty. cbn [andb]. apply fold_add_key_in, Hfk.
   Qed.
+  (* the junction keys of a many_to_many relationship of a model of the query that goes THROUGH this model *)
+  Lemma junction_key_projected m gr dims filters order_by am mfc jk om r k :
+    In om gr -> In (fst om) am -> In r (snd om) -> cr_type r = "many_to_many" -> cr_through r = Some (mo_name m) -> k <> "" ->
+    (cr_jself r = Some k \/ cr_jrel r = Some k) -> 1 < length am ->
+    In k (st_added (cte_keys_dims qa trunc parse m gr dims filters order_by am mfc jk)).
+  Proof.
+    intros Hom Hin Hr Ht Hth Hk Hj Hlen. unfold cte_keys_dims.
+    assert (Ham : match am with [] => [mo_name m] | _ => am end = am) by (destruct am; [simpl in Hlen; inversion Hlen | reflexivity]). rewrite Ham.
+    set (s0 := ([], [], needed_dims parse (mo_name m) dims filters order_by mfc) : st).
+    destruct (gran_phase_ext m dims (dim_phase qa trunc m (key_phases qa m gr am jk s0))) as (Hi1 & _). apply Hi1.
+    destruct (dim_phase_ext m (key_phases qa m gr am jk s0)) as (Hi2 & _). apply Hi2.
+    unfold key_phases.
+    match goal with |- In k (st_added (fold_left ?f ?l ?s9)) => destruct (fold_ext f l (add_key_ext true) s9) as (Hi3 & _); apply Hi3 end.
+    apply Nat.ltb_lt in Hlen. rewrite Hlen.
+    unfold junction_phase.
+    apply (fold_reaches _ gr om k).
+    - intros s1 o1. destruct (mem (fst o1) am); [|apply ext_refl]. apply fold_ext. intros s3 r3.
+      match goal with |- context [if ?c then _ else _] => destruct c end; [|apply ext_refl]. apply fold_ext. intros s4 k4. destruct (opt_truthy k4); [apply add_key_ext | apply ext_refl].
+    - exact Hom.
+    - intros s1. apply mem_In in Hin. rewrite Hin.
+      apply (fold_reaches _ (snd om) r k).
+      + intros s3 r3. match goal with |- context [if ?c then _ else _] => destruct c end; [|apply ext_refl]. apply fold_ext. intros s4 k4. destruct (opt_truthy k4); [apply add_key_ext | apply ext_refl].
+      + exact Hr.
+      + intros s3. rewrite Ht, String.eqb_refl, Hth. unfold opt_eqb. rewrite String.eqb_refl. cbn [andb].
+        assert (Tk : opt_truthy (Some k) = true) by (unfold opt_truthy; apply negb_true_iff, String.eqb_neq, Hk).
+        apply (fold_reaches _ [cr_jself r; cr_jrel r] (Some k) k).
+        * intros s4 k4. destruct (opt_truthy k4); [apply add_key_ext | apply ext_refl].
+        * destruct Hj as [-> | ->]; [left; reflexivity | right; left; reflexivity].
+        * intros s4. rewrite Tk. apply add_key_in.
+  Qed.
   Lemma join_key_projected m gr dims filters order_by am mfc l k :
     In k l -> In k (st_added (cte_keys_dims qa trunc parse m gr dims filters order_by am mfc (Some l))).
   Proof.
